@@ -15,7 +15,8 @@
 (*       eight one-hole contexts Ctx (array, option, result ok side /      *)
 (*       err side, tuple of 2 first/second, of 3 middle, of 4 last)        *)
 (*       over all leaf types: every nesting of one constructor inside      *)
-(*       another inside another.  Quick tier: a seeded 1/SampleMod of F3.  *)
+(*       another inside another.  Quick tier: a seeded 1/SampleMod of F3   *)
+(*       and a seeded fifth of F1's four-tuples.                           *)
 (*   R   (C28R.cfg, tlc -simulate) random types of depth <= 3, tuples      *)
 (*       <= 4, arrays of width <= 3, random values.                        *)
 (* Values per type: Vals(ty) - every leaf value occurs; arrays of width    *)
@@ -75,8 +76,10 @@ ParseNat(s, acc) == IF s = "" THEN acc ELSE ParseNat(SubSeq(s, 2, Len(s)), (acc 
 EnvOr(name, dflt) == IF name \in DOMAIN IOEnv THEN IOEnv[name] ELSE dflt
 Tier == EnvOr("TIER", "quick")
 Seed == ParseNat(EnvOr("SEED", "1"), 0)
-SampleMod == 8
+SampleMod == 16
 InF3(i) == Tier = "thorough" \/ (i + Seed) % SampleMod = 0
+\* quick tier: all of F1 except the 625 four-tuples, of which a seeded fifth
+InF1(i) == Tier = "thorough" \/ i <= Len(F1) - NL * NL * NL * NL \/ (i + Seed) % 5 = 0
 
 \* ---------------------------------------------------------------- one case per type
 RECURSIVE ConcatSeqs(_)
@@ -101,13 +104,16 @@ CaseOf(id, fam, ty, vs) ==
      ELSE base @@ [expect |-> [status |-> "done", out |-> OutFor(vs, EmptySpellings[1])]]
 
 FamSeq(f) == CASE f = "F0" -> F0 [] f = "F1" -> F1 [] f = "F2" -> F2 [] f = "F3" -> F3
-Selected == {[f |-> "F0", i |-> i] : i \in 1..Len(F0)} \cup {[f |-> "F1", i |-> i] : i \in 1..Len(F1)} \cup
+Selected == {[f |-> "F0", i |-> i] : i \in 1..Len(F0)} \cup {[f |-> "F1", i |-> i] : i \in {j \in 1..Len(F1) : InF1(j)}} \cup
             {[f |-> "F2", i |-> i] : i \in 1..Len(F2)} \cup {[f |-> "F3", i |-> i] : i \in {j \in 1..Len(F3) : InF3(j)}}
 
+\* Initial states are NG groups and every case is the successor of its group, so that TLC's workers share the work
+\* (the successors of one state are computed by one worker).
 VARIABLE c
-Init == c = [f |-> "start", i |-> 0]
-Next == c.f = "start" /\ c' \in Selected
-Emit == c.f \notin {"start", "rand", "randty"} =>
+NG == 16
+Init == c \in {[f |-> "grp", i |-> g] : g \in 0..NG - 1}
+Next == c.f = "grp" /\ c' \in {x \in Selected : x.i % NG = c.i}
+Emit == c.f \notin {"start", "grp", "rand", "randty"} =>
    LET ty == FamSeq(c.f)[c.i]
        id == c.f \o "_" \o ToString(c.i)
    IN JsonSerialize(IOEnv.OUTDIR \o "/" \o id \o ".json", CaseOf(id, c.f, ty, Vals(ty)))
